@@ -11,7 +11,7 @@ histories of any length.  Sequences are explored in addition as a cross-check.
 """
 import z3
 from symx.core import And_, Or_, Not_, eq_, is_sym, zof, _wrap, _num
-from symx.edz import fresh_circuit
+from symx.edz import fresh_circuit, StubQueue
 import edzed
 from edzed import simulator
 
@@ -34,20 +34,6 @@ ASSUMPTIONS = ["amounts/values are ints or reals (not other numeric types)"]
 EXPECT_LABELS = {'all': ['init-reduced', 'put-result', 'step-result', 'step-range', 'noparam-typeerror',
                          'restore-reduced', 'seq-result', 'modulo0-refused']}
 FLOORS = {'quick': {'paths': 100, 'checks': 300}, 'thorough': {'paths': 1000, 'checks': 3000}}
-
-
-class StubQueue:
-    def __init__(self):
-        self.items = []
-
-    def put_nowait(self, x):
-        self.items.append(x)
-
-    def empty(self):
-        return not self.items
-
-    def get_nowait(self):
-        return self.items.pop(0)
 
 
 def reduced(env, out, x, M):
